@@ -10,10 +10,11 @@ interpreter by the `interpmodel` / `interpedge` / `interpfuzz` workloads, error 
 included).  Both run on the same abstract syntax (`Ledger.Machine.Ast`), the same
 variables, balances and account metadata (`Machine.Input`).
 
-`machine_interp_agree_F1`: for EVERY program and input of the fragment F1
-(`Ledger/Interp/Fragment.lean`: `InF1`, decidable, evaluated on every generated case) the
-two models both fail, or yield the same non-zero postings in the same order, the same
-transaction metadata and the same account metadata.  The proof is a simulation by
+`machine_interp_agree_F2` (and its allotment-free special case `machine_interp_agree_F1`):
+for EVERY program and input of the fragment (`Ledger/Interp/Fragment.lean`: `InF2` / `InF1`,
+decidable, evaluated on every generated case) the two models both fail, or yield the same
+non-zero postings in the same order, the same transaction metadata and the same account
+metadata.  The proof is a simulation by
 structural induction over sources and destinations between the machine's fundings and the
 interpreter's funds queue, both read as lists of units (`Ledger/Proofs/Interp*.lean`).
 
@@ -24,12 +25,52 @@ and the `…_counterexample_*` theorems refute it on the witnesses of the diverg
 namespace Ledger.C26i
 open Ledger.Machine Ledger.Interp
 
-/-! ## Agreement on F1 -/
+/-! ## Agreement on F1 and F2 -/
 
-/-- F1, in the relation the differential applies to the two real runtimes. -/
+/-- F1 (no allotment), in the relation the differential applies to the two real runtimes. -/
 theorem machine_interp_agree_F1 (p : Script) (inp : Input) (h : InF1 p inp = true) :
     SameResult p inp :=
   sameResult_of_agree (agree_F1 p inp h)
+
+/-- F2 = F1 + allotment sources and destinations (literal portions, `remaining`). -/
+theorem machine_interp_agree_F2 (p : Script) (inp : Input) (h : InF2 p inp = true) :
+    SameResult p inp :=
+  sameResult_of_agree (agree_F2 p inp h)
+
+/-- F2, unfolded (see `machine_interp_agree_F1_units`). -/
+theorem machine_interp_agree_F2_units (p : Script) (inp : Input) (h : InF2 p inp = true) :
+    match sem Cfg.fixed p inp, Ledger.Interp.run p inp with
+    | .error _, .error _ => True
+    | .ok rm, .ok ri =>
+      unitsP rm.postings = unitsP ri.postings ∧
+      (∀ q ∈ rm.postings, 0 ≤ q.amount) ∧ (∀ q ∈ ri.postings, 0 ≤ q.amount) ∧
+      rm.txMeta = ri.txMeta ∧
+      rm.accMeta.map (fun x => (x.1, x.2.1, valStr x.2.2)) = ri.accMeta
+    | _, _ => False :=
+  agree_F2 p inp h
+
+/-- No front-end hypothesis for programs WITHOUT variable declarations: if the machine
+    compiles the program, the input passes no variable, and every statement is a statement of
+    F2 (`stmtWf []`: a condition on the program text alone, the environment being empty), the
+    two models agree — for all balances and account metadata. -/
+theorem machine_interp_agree_F2_novars (p : Script) (inp : Input) (hv : p.vars = [])
+    (hi : inp.vars = []) (htc : compiles p = true) (hwf : ∀ st ∈ p.stmts, stmtWf [] st = true) :
+    SameResult p inp :=
+  sameResult_of_agree (agree_F2_novars p inp hv hi htc hwf)
+
+/-- … because there the two front ends provably agree. -/
+theorem front_ends_agree_novars (p : Script) (inp : Input) (hv : p.vars = []) (hi : inp.vars = [])
+    (hwf : ∀ st ∈ p.stmts, stmtWf [] st = true) : FrontAgree p inp = true :=
+  frontAgree_novars p inp hv hi hwf
+
+/-- Allotments: on an allotment of F2 both runtimes compute the same shares
+    (`Allotment.Allocate` = the interpreter's `makeAllotment`). -/
+theorem allotment_shares_agree {env : Env} (ienv : Env) {ps : List PortionE}
+    (h : allotOK env ps = true) :
+    ∃ a, Machine.makeAllotment env ps = .ok a ∧ a.sum = 1 ∧
+      ∀ amt, Ledger.Interp.makeAllotment ienv amt ps = .ok (allocate a amt) := by
+  obtain ⟨a, h1, h2, _, h4⟩ := makeAllotment_agree ienv h
+  exact ⟨a, h1, h2, h4⟩
 
 /-- F1, unfolded: both models fail, or the postings are the same lists of units (one
     (source, destination, asset) triple per unit of amount, in order), every amount is ≥ 0,
@@ -96,6 +137,15 @@ example : mSum wF1 wF1In = some
       ⟨"world", "z", "COIN", 55⟩, ⟨"x", "a2", "COIN", 18⟩, ⟨"a", "a2", "COIN", 5⟩],
      [("k", "COIN 3")], [("a2", "tag", "3/4")]) := by decide +kernel
 example : iSum wF1 wF1In = mSum wF1 wF1In := by decide +kernel
+-- a program of F2 (allotment source over in-order / capped-unbounded / overdraft sources,
+-- allotment destination with a nested in-order destination), not in F1
+example : InF2 wF2 wF2In = true := by decide +kernel
+example : InF1 wF2 wF2In = false := by decide +kernel
+example : mSum wF2 wF2In = some
+    ([⟨"a", "x", "COIN", 20⟩, ⟨"world", "x", "COIN", 6⟩, ⟨"world", "y", "COIN", 7⟩, ⟨"world", "z", "COIN", 1⟩,
+      ⟨"b", "z", "COIN", 10⟩, ⟨"c", "z", "COIN", 45⟩, ⟨"c", "x", "COIN", 12⟩], [], []) := by
+  decide +kernel
+example : SameResult wF2 wF2In := by unfold SameResult; decide +kernel
 -- … and one where both fail (insufficient funds)
 example : InF1 wF1Poor (coinInput [("a", 50), ("a2", 8)]) = true := by decide +kernel
 example : mSum wF1Poor (coinInput [("a", 50), ("a2", 8)]) = none := by decide +kernel
